@@ -552,6 +552,13 @@ fn val_for(rng: &mut Rng, p: &Pat) -> Val {
                 Val::I64(*n)
             }
         }
+        Pat::NaN => {
+            if near {
+                if rng.bool() { Val::F64(0.5) } else { Val::U64(3) }
+            } else {
+                Val::F64(f64::NAN)
+            }
+        }
         Pat::F64(x) => {
             if near {
                 if rng.bool() {
